@@ -433,7 +433,7 @@ def call_contract(st, c, args, kwargs, n=None, closure_env=None):
             if st.qdepth == 0:
                 st.assume_type(res)
         envr = dict(env)
-        envr['result'] = res
+        envr['retval' if 'result' in c.params else 'result'] = res
         for en in c.ensures:
             st.assume(E.spec_bool(st, en, envr, old_heap=dict(st.heap), old_locals=env))
         return res
@@ -463,7 +463,7 @@ def call_contract(st, c, args, kwargs, n=None, closure_env=None):
             else:
                 res = st.fresh_val(c.returns, 'ret_' + c.key.split('.')[-1])
             envr = dict(env)
-            envr['result'] = res
+            envr['retval' if 'result' in c.params else 'result'] = res
             for en in c.ensures:
                 st.assume(E.spec_bool(st, en, envr, old_heap=pre_heap, old_locals=env))
             st.call_log.append((c.key, [env[p] for p in c.params if p in env], res))
@@ -1039,6 +1039,35 @@ def bi_allocated(st, args, kw):
     """allocated(x): x is an object that exists now (0 < ref < allocation counter)"""
     v = args[0]
     return E.mk_bool(z3.And(v.z > 0, v.z < st.alloc))
+
+
+def _dict_fromkeys(st, args):
+    """dict.fromkeys(keys): a new dict with exactly the elements of `keys` as keys (first occurrence order),
+    every value None.  Value type Any (boxed); the declared type of the receiving local fixes it."""
+    s, kt = B.seq_of(st, args[0])
+    if len(args) > 1:
+        raise Undecided('dict.fromkeys with a value')
+    vt = T.Ty('union', ())
+    ks = T.sort_of(kt)
+    ref = st.new_ref('dict')
+    keys = B.seq_fresh(st, ks, 'fk')
+    has = st.fresh(z3.ArraySort(ks, z3.BoolSort()), 'fkh')
+    mp = z3.K(ks, T.PyVal.none)
+    st.dict_store(ref, kt, vt, keys, mp, has)
+    st.assume(st.dict_wf(ref, kt, vt))
+    st.nfresh += 1
+    k = z3.Int('k!fk%d' % st.nfresh)
+    x = z3.Const('x!fk%d' % st.nfresh, ks)
+    w = z3.Function('fkw!%d' % st.nfresh, ks, I)
+    st.assume(z3.And(keys.n >= 0, keys.n <= s.n))
+    st.assume(z3.ForAll([k], z3.Implies(z3.And(0 <= k, k < s.n), z3.Select(has, z3.Select(s.arr, k))),
+                        patterns=[z3.Select(s.arr, k)]))
+    st.assume(z3.ForAll([x], z3.Implies(z3.Select(has, x), z3.And(0 <= w(x), w(x) < s.n, z3.Select(s.arr, w(x)) == x)),
+                        patterns=[z3.Select(has, x)]))
+    return Val(T.TDict(kt, vt), ref)
+
+
+SPECFUNS['dict_fromkeys'] = _dict_fromkeys
 
 
 def bi_preexisting(st, args, kw):
